@@ -1,5 +1,6 @@
 import JediModel.Proto
 import JediModel.Model.Imports
+import JediModel.Model.StarChain
 import JediModel.Gen.C10
 open Lean Proto JediModel.SysPath JediModel.Imports
 open JediModel.Gen.C10
@@ -97,6 +98,14 @@ def handle (j : Json) : Json :=
         else (follow (strs j "import_path" ++ [n])).map Target.module
       | _ => (follow (strs j "import_path")).map Target.module
     jarr (res.map jTarget)
+  | "starchain" =>
+    -- ModuleMixin.star_imports of the module `start` in a world of modules given by their dotted names
+    let tbl : List (JediModel.StarChain.Name × JediModel.StarChain.Mod) := (arr j "modules").map fun m =>
+      (strs m "name", { pkg := strs m "pkg", defs := strs m "defs",
+                        stars := (arr m "stars").map fun s => { level := nat s "level", path := strs s "path" } })
+    let w := JediModel.StarChain.worldOf tbl
+    jarr ((JediModel.StarChain.starImportsOf w starImportsOwnContext (nat j "fuel") (strs j "start")).map
+      fun n => jarr (n.map jstr))
   | op => jobj [("error", jstr ("unknown op " ++ op))]
 
 def main : IO Unit := Proto.run handle
